@@ -1383,6 +1383,9 @@ func evaluate(c *vlib.Check, j *job, bin string, drift *int) bool {
 	}
 	if key, detail := judge(j, o); key != "" {
 		for _, k := range strings.Split(key, "+") {
+			if strings.Contains(","+os.Getenv("C20_ASSUME_FIXED")+",", ","+k+",") {
+				k += "|regression" // the findings file still lists it as open: do not let that entry swallow it
+			}
 			c.Violate(k, detail, j)
 		}
 	}
